@@ -405,3 +405,51 @@ pub fn parse_response(buf: &[u8], head_only: bool) -> Option<HttpResp> {
     };
     Some(HttpResp { status, headers, body, failure: None })
 }
+
+/// Send a Content-Length request whose body is written in two parts; `between` runs after the
+/// first part has been flushed (used to overlap another upload on the same server worker).
+pub fn socket_request_two_parts(addr: &str, req: &HttpReq, first: usize, timeout: Duration, between: &mut dyn FnMut()) -> HttpResp {
+    let mut inner = || -> std::io::Result<HttpResp> {
+        let body: Vec<u8> = req.chunks.concat();
+        let mut s = TcpStream::connect(addr)?;
+        s.set_read_timeout(Some(timeout))?;
+        s.set_write_timeout(Some(timeout))?;
+        s.set_nodelay(true)?;
+        let mut head = Vec::new();
+        head.extend_from_slice(format!("{} {} HTTP/1.1\r\nHost: localhost\r\nConnection: close\r\n", req.method, req.path).as_bytes());
+        for (k, v) in &req.headers {
+            head.extend_from_slice(k.as_bytes());
+            head.extend_from_slice(b": ");
+            head.extend_from_slice(v);
+            head.extend_from_slice(b"\r\n");
+        }
+        head.extend_from_slice(format!("Content-Length: {}\r\n\r\n", body.len()).as_bytes());
+        s.write_all(&head)?;
+        let first = first.min(body.len());
+        s.write_all(&body[..first])?;
+        s.flush()?;
+        std::thread::sleep(Duration::from_millis(40));
+        between();
+        s.write_all(&body[first..])?;
+        s.flush()?;
+        let mut buf = Vec::new();
+        let mut tmp = [0u8; 65536];
+        loop {
+            match s.read(&mut tmp) {
+                Ok(0) => break,
+                Ok(n) => buf.extend_from_slice(&tmp[..n]),
+                Err(e) => {
+                    if buf.is_empty() {
+                        return Err(e);
+                    }
+                    break;
+                }
+            }
+        }
+        parse_response(&buf, false).ok_or_else(|| std::io::Error::new(std::io::ErrorKind::InvalidData, "unparsable response"))
+    };
+    match inner() {
+        Ok(r) => r,
+        Err(e) => HttpResp::failed(format!("socket: {e}")),
+    }
+}
